@@ -92,9 +92,10 @@ Theorem c08_release_after_cancel : forall s g, rcancel s = Some g -> g < length 
 Proof. exact cancel_phase_cancels. Qed.
 Print Assumptions c08_release_order.
 
-(* the codec of the correspondence produces only well-formed resolver returns *)
+(* the codec of the correspondence produces only well-formed resolver returns (except in the constant-value configuration,
+   which exists for the Access clauses of C10 only) *)
 Theorem codec_only_wf_returns : forall h g hr er h' o,
-  hstep h [8%N; g; hr; er] = Some (h', o) -> exists e, wf_ev e /\ hs h' = settle (step repaired (hs h) e).
+  hconst h = false -> hstep h [8%N; g; hr; er] = Some (h', o) -> exists e, wf_ev e /\ hs h' = settle (step repaired (hs h) e).
 Proof. exact codec_resreturn_wf. Qed.
 Print Assumptions codec_only_wf_returns.
 
